@@ -57,6 +57,8 @@ def build_equilibrium(cfg):
         wall = E.default_wall(slanted=("many" if cfg.get("wall") == "many" else cfg.get("wall") == "slanted"), mirror=cfg.get("mirror", False))
         if cfg.get("wall") == "limiter":
             wall = E.limiter_wall()
+        if cfg.get("wall") == "baffle":
+            wall = E.baffle_wall()
         if cfg.get("wall_clockwise"):
             wall = wall[::-1]
         k = int(cfg.get("wall_start", 0))      # the polygon may start at any of its vertices ...
